@@ -10,6 +10,7 @@ import (
 	"sync"
 	"time"
 
+	"go.sia.tech/core/consensus"
 	"go.sia.tech/core/gateway"
 	"go.sia.tech/core/types"
 	"go.sia.tech/coreutils/chain"
@@ -24,21 +25,23 @@ import (
 type gateCM struct {
 	*chain.Manager
 
-	mu         sync.Mutex
-	cond       *sync.Cond
-	open       bool        // gate open: calls pass without waiting
-	tickets    int         // number of waiting calls allowed to pass while the gate is shut
-	inside     int         // calls currently inside
-	perCli     map[int]int // client -> calls inside
-	perSub     map[int]int // subnet -> calls inside
-	maxCli     map[int]int // client -> max concurrent observed
-	maxSub     map[int]int // subnet -> max concurrent observed
-	maxAll     int
-	entered    int         // total calls that entered
-	enteredCli map[int]int // client -> calls that entered
-	left       int         // total calls that returned
-	subOf      func(cli int) int
-	failHist   bool // History() returns an error (fatal for syncLoop)
+	mu                          sync.Mutex
+	cond                        *sync.Cond
+	open                        bool        // gate open: calls pass without waiting
+	tickets                     int         // number of waiting calls allowed to pass while the gate is shut
+	inside                      int         // calls currently inside
+	perCli                      map[int]int // client -> calls inside
+	perSub                      map[int]int // subnet -> calls inside
+	maxCli                      map[int]int // client -> max concurrent observed
+	maxSub                      map[int]int // subnet -> max concurrent observed
+	maxAll                      int
+	entered                     int         // total calls that entered
+	enteredCli                  map[int]int // client -> calls that entered
+	left                        int         // total calls that returned
+	subOf                       func(cli int) int
+	failHist                    bool // History() returns an error (fatal for syncLoop)
+	ingestShut                  bool
+	ingestInside, ingestEntered int
 }
 
 func newGateCM(cm *chain.Manager, subOf func(int) int) *gateCM {
@@ -92,6 +95,47 @@ func (g *gateCM) BlocksForHistory(history []types.BlockID, max uint64) ([]types.
 	g.cond.Broadcast()
 	g.mu.Unlock()
 	return g.Manager.BlocksForHistory(history[1:], max)
+}
+
+// the block-ingestion side (AddBlocks / AddValidatedV2Blocks, called by a sync round): calls are
+// counted and, when the ingest gate is shut, held until it opens
+func (g *gateCM) ingest() func() {
+	g.mu.Lock()
+	g.ingestInside++
+	g.ingestEntered++
+	g.cond.Broadcast()
+	for g.ingestShut {
+		g.cond.Wait()
+	}
+	g.mu.Unlock()
+	return func() {
+		g.mu.Lock()
+		g.ingestInside--
+		g.mu.Unlock()
+	}
+}
+
+func (g *gateCM) AddBlocks(blocks []types.Block) error {
+	defer g.ingest()()
+	return g.Manager.AddBlocks(blocks)
+}
+
+func (g *gateCM) AddValidatedV2Blocks(blocks []types.Block, states []consensus.State) error {
+	defer g.ingest()()
+	return g.Manager.AddValidatedV2Blocks(blocks, states)
+}
+
+func (g *gateCM) ingestNow() (inside, entered int) {
+	g.mu.Lock()
+	defer g.mu.Unlock()
+	return g.ingestInside, g.ingestEntered
+}
+
+func (g *gateCM) setIngestShut(v bool) {
+	g.mu.Lock()
+	g.ingestShut = v
+	g.cond.Broadcast()
+	g.mu.Unlock()
 }
 
 func (g *gateCM) History() ([32]types.BlockID, error) {
